@@ -3,10 +3,15 @@ From Coq Require Import List NArith ZArith Bool.
 From LH Require Import Base.Bytes Base.Res Model.Lexer Model.Ast Model.Symbols Spec.SymbolSpec Proofs.SymbolsWitness.
 Import ListNotations.
 
-(* CONFIRMED defect (DESIGN 6 row 18): the start column of an entry with children is overwritten by the largest end
-   column of its children. `local u = { k = 1, g = function() end }`: start after end; `t = {}` / `t.v = 1`: the range
-   starts after the declaring `t`. *)
-Theorem C19_range_rewrite_refuted :
+(* REPAIRED defect (DESIGN 6 row 18, fix: commit 5912ee6): the start column of an entry with children used to be overwritten
+   by the largest end column of its children (`local u = { k = 1, g = function() end }`: start after end;
+   `t = {}` / `t.v = 1`: range starting after the declaring `t`).  The pre-fix code is kept in the model under
+   fx = false; the deployed model is the repaired one. *)
+Theorem C19_deployed_is_repaired : deployed_fixed = true.
+Proof. reflexivity. Qed.
+Print Assumptions C19_deployed_is_repaired.
+
+Theorem C19_range_rewrite_prefix_refuted :
   (exists s, outline_of_bytes false w_local = Some [s] /\
              s_key s = [117%N] /\ s_decl s = mkLoc 1 6 1 7 /\ s_loc s = mkLoc 1 37 1 7 /\
              well_formed (s_loc s) = false /\ contains (s_loc s) (s_decl s) = false) /\
@@ -14,4 +19,13 @@ Theorem C19_range_rewrite_refuted :
              s_key s = [116%N] /\ s_decl s = mkLoc 1 0 1 1 /\ s_loc s = mkLoc 1 3 2 1 /\
              contains (s_loc s) (s_decl s) = false).
 Proof. exact (conj rewrite_local_witness rewrite_global_witness). Qed.
-Print Assumptions C19_range_rewrite_refuted.
+Print Assumptions C19_range_rewrite_prefix_refuted.
+
+(* the two witnesses on the deployed (repaired) code: well-formed ranges that contain the declaring identifier *)
+Theorem C19_range_rewrite_repaired :
+  (exists s, outline_of_bytes deployed_fixed w_local = Some [s] /\ s_loc s = mkLoc 1 6 1 37 /\
+             well_formed (s_loc s) = true /\ contains (s_loc s) (s_decl s) = true) /\
+  (exists s, outline_of_bytes deployed_fixed w_global = Some [s] /\ s_loc s = mkLoc 1 0 2 3 /\
+             well_formed (s_loc s) = true /\ contains (s_loc s) (s_decl s) = true).
+Proof. exact rewrite_witnesses_fixed. Qed.
+Print Assumptions C19_range_rewrite_repaired.
